@@ -1,20 +1,83 @@
-import Wayfind.Proofs.Reachable
+import Wayfind.Proofs.Unique5
 import Wayfind.Generated.Facts
 
 /-! # C15 — the printed tree is the canonical compressed radix tree of the live routes
-On every router reachable through the API the tree satisfies `Shp` and `Srt` (Proofs/Inv.lean, Proofs/OptOk.lean):
-literal labels are non-empty and literal siblings begin with different bytes; parameter siblings of one kind are
-pairwise different and strictly sorted by name, then constraint; parameter nodes have only literal children; mid-route
-wildcard nodes carry no data; catch-all nodes are marked leaves; every child holds at least one route (so every leaf
-is marked). `Display` prints the seven child vectors in kind order (generated obligation) and, inside a vector, in
-stored order.
-Status: **partial** — not yet proved: literal siblings sorted, no unmarked literal node with a single literal child
-(maximal compression), and the identification of the marked label paths with the live expansions (registry
-invariant). All clauses of the property are checked on the implementation's own drawings by the `C15` oracle
-(Spec/Drawing.lean parses the printed tree back), on every `display` of every run. -/
+On every router reachable through the API the tree is **canonical** (`C15_tree_canonical`; the predicates are
+hereditary, i.e. they hold at every node of the tree):
+* `Node.Shp` — literal labels are non-empty and literal siblings begin with different bytes; parameter siblings of one
+  kind are pairwise different; parameter nodes have only literal children; mid-route wildcard nodes carry no data;
+  catch-all nodes are marked leaves; every child holds at least one route, so **every leaf is marked**
+  (`C15_leaf_is_marked`);
+* `Node.Srt` — parameter siblings are strictly sorted by name, then constraint; `Node.SrtS` — **literal siblings are
+  sorted** (by their first bytes);
+* `Node.Cmp` — **maximal compression**: no literal child is an unmarked node whose only child is one literal node
+  (`C15_no_compressible_literal_child` spells the predicate out at the root's literal children).
+`Display` prints the seven child vectors in kind order (generated obligation) and, inside a vector, in stored order; it
+depends on the tree only through its skeleton — labels, order, marks (`C15_display_sees_skeleton`).
+**The drawing lists exactly the live routes** (`C15_marked_paths_are_live_routes`): the label paths from the root to the
+marked nodes, literal labels concatenated, are exactly the part lists of the expansions of the live templates.
+And the drawing is *the* canonical tree of that set: any two canonical trees with the same keys have the same skeleton and
+print identically (`C15_canonical_is_unique`).
+Status: proved for every history. Not proved: that a marked path occurs once in the *list* `Node.routes` (it follows from
+the distinct first bytes / labels, and the lookup `find` is a function, which is what the theorems use); the text-level
+reading of the drawing (glyphs, padding) is checked on the implementation's own drawings by the `C15` oracle, which parses
+the printed tree back (Spec/Drawing.lean). -/
+
+theorem C15_tree_canonical (r : Router) (h : Reachable r) :
+    Node.Shp r.root ∧ Node.Srt r.root ∧ Node.SrtS r.root ∧ Node.Cmp r.root :=
+  reachable_canon r h
 
 theorem C15_tree_shape (r : Router) (h : Reachable r) : Node.Shp r.root ∧ Node.Srt r.root :=
   ⟨(reachable_good3 r h).1, (reachable_good3 r h).2.1⟩
+
+/-- a node that holds a route and has no children is marked -/
+theorem C15_leaf_is_marked (x : Option Info) (ds ws dirty : Bool)
+    (h : Node.routes (.mk x .nil .nil .nil .nil .nil .nil .nil ds ws dirty) ≠ []) : x.isSome = true := by
+  cases x with
+  | none => simp [Node.routes, Kids.routes] at h
+  | some _ => rfl
+
+/-- the compression clause spelled out: a literal child of a canonical node is never an unmarked node with exactly one
+literal child and nothing else -/
+theorem C15_no_compressible_literal_child (x : Option Info) (s dc d wc w ec e : Kids) (ds ws dirty : Bool)
+    (h : Node.Cmp (.mk x s dc d wc w ec e ds ws dirty)) (A : Kids) (l : Label) (B : Kids)
+    (lg : Label) (g : Node) (ds' ws' dirty' : Bool)
+    (hs : s = Kids.app A (.cons l (.mk none (.cons lg g .nil) .nil .nil .nil .nil .nil .nil ds' ws' dirty') B)) : False := by
+  simp only [Node.Cmp] at h
+  have := h.1
+  rw [hs, Kids.All_app, All_cons_iff] at this
+  simp [Node.compress?, Kids.isNil, Kids.single] at this
+
+/-- literal siblings: first bytes strictly increasing (hence pairwise different) at the root, and hereditarily below -/
+theorem C15_literal_siblings_sorted (r : Router) (h : Reachable r) : SH r.root.statics := by
+  have := (reachable_canon r h).2.2.1
+  cases hr : r.root with
+  | mk x s dc d wc w ec e ds ws dirty => rw [hr] at this; simp only [Node.SrtS] at this; exact this.1
+
+theorem C15_display_sees_skeleton (n : Node) : Node.display (Node.skel n) = Node.display n := display_skel n
+
+/-- **The marked label paths are exactly the live expansions.** `Node.routes` lists, for every marked node, the labels
+from the root down to it; `norm` concatenates adjacent literal labels. -/
+theorem C15_marked_paths_are_live_routes (r : Router) (L : List LiveT) (h : Live r L) :
+    (∀ rt ∈ Node.routes r.root, ∃ lt ∈ L, ∃ e ∈ lt.exps, e.2 = norm rt.parts) ∧
+    (∀ lt ∈ L, ∀ e ∈ lt.exps, ∃ rt ∈ Node.routes r.root, norm rt.parts = e.2) := by
+  have hreg := h.rinv.reg
+  constructor
+  · intro rt hrt
+    obtain ⟨hwf, hf⟩ := route_find hreg.shp rt hrt
+    obtain ⟨lt, hlt, e, he, hk, _⟩ := hreg.sound _ _ hwf hf
+    exact ⟨lt, hlt, e, he, hk⟩
+  · intro lt hlt e he
+    obtain ⟨i, hf, _⟩ := hreg.complete lt hlt e he
+    have hwf : wfParts e.2 = true := parse_wf (hreg.parsed lt hlt) e he
+    obtain ⟨rt, hrt, hn, _⟩ := (Node.find_iff r.root e.2 i hreg.shp hwf).1 hf
+    exact ⟨rt, hrt, hn⟩
+
+/-- **Canonical means unique**: two canonical trees storing the same keys have the same skeleton and the same drawing. -/
+theorem C15_canonical_is_unique (n1 n2 : Node) (c1 : Canon n1) (c2 : Canon n2)
+    (h : ∀ K, wfParts K = true → (Node.find n1 K).isSome = (Node.find n2 K).isSome) :
+    Node.skel n1 = Node.skel n2 ∧ Node.display n1 = Node.display n2 :=
+  ⟨Node.skel_unique n1 n2 c1 c2 h, display_eq_of_keyEq n1 n2 c1 c2 h⟩
 
 /-- generated obligation: `Display` prints the child vectors in the documented kind order -/
 theorem C15_display_kind_order : Generated.displayKindOrder = [0, 1, 2, 3, 4, 5, 6] := by decide
